@@ -17,11 +17,13 @@ import (
 	awsv2kmssvc "github.com/aws/aws-sdk-go-v2/service/kms"
 	"github.com/godaddy/asherah/go/appencryption"
 	"github.com/godaddy/asherah/go/appencryption/pkg/crypto/aead"
+	sdklog "github.com/godaddy/asherah/go/appencryption/pkg/log"
 	v1kms "github.com/godaddy/asherah/go/appencryption/plugins/aws-v1/kms"
 	v2kms "github.com/godaddy/asherah/go/appencryption/plugins/aws-v2/kms"
 
 	"verif/harness/ev"
 	"verif/harness/fakes/awskms"
+	"verif/harness/probe"
 )
 
 // flaky is the AEAD given to both plug-ins: the real AES-256-GCM with a switch that makes Encrypt fail (a KMS
@@ -137,12 +139,41 @@ func allZero(b []byte) bool {
 // GenerateDataKey x every subset failing Encrypt (wrap), then every non-empty subset of regions configured at
 // unwrap x every preferred region among them x every subset failing Decrypt, for the version pairs v1->v1,
 // v2->v2, v1->v2, v2->v1. prop is "C17" or "C10" (which verdicts are reported).
+// logScan scans the debug log lines written since the last call (installed by Sweep).
+var logScan func(what string, keys ...[]byte)
+
+// curDataKey is the data key of the envelope produced by the latest wrap (what the unwraps that follow obtain from KMS).
+var curDataKey []byte
+
 func Sweep(r *ev.Run, prop string, maxRegions int, builds int) {
 	report := func(sig, f string, a ...any) {
 		r.Violation(sig, fmt.Sprintf(f, a...), nil)
 	}
 	c17 := prop == "C17"
 	_ = prop == "C10"
+	// the plug-ins' debug log is captured while they wrap and unwrap: no line may carry the system key or the data
+	// key of the envelope in any rendering
+	tap := &probe.LogTap{}
+	tap.SetKeep(true)
+	sdklog.SetLogger(tap)
+	defer sdklog.SetLogger(&probe.LogTap{})
+	logScan = func(what string, keys ...[]byte) {
+		for _, line := range tap.Take() {
+			r.Count("plugin_debug_log_lines_scanned", 1)
+			for ki, k := range keys {
+				if len(k) < 16 {
+					continue
+				}
+				for fi, f := range probe.Forms(k) {
+					if bytes.Contains([]byte(line), f) {
+						name := []string{"system key", "data key of the envelope"}[ki%2]
+						r.Violation("key-plaintext-in-debug-log", fmt.Sprintf("%s: a debug log line of the plug-in carries the %s (rendering %d): %.80q...", what, name, fi, line), nil)
+						return
+					}
+				}
+			}
+		}
+	}
 	for pass := 0; pass < 2*maxRegions; pass++ {
 		n := pass%maxRegions + 1
 		regions := allRegions[:n]
@@ -179,6 +210,7 @@ func Sweep(r *ev.Run, prop string, maxRegions int, builds int) {
 							r.Eval(1)
 							r.Count("wraps", 1)
 							calls := cloud.Calls()
+							defer0 := func(dk []byte) { logScan(fmt.Sprintf("v%d wrap", wv), skCopy, dk) }
 							canGenerate := len(failGen) < len(regions)
 							desc := fmt.Sprintf("v%d wrap, regions=%v preferred=%s failGenerate=%v failEncrypt=%v", wv, regions, pref, failGen, failEnc)
 							// the data key of this wrap, as KMS generated it (the fakes keep a private copy)
@@ -188,6 +220,8 @@ func Sweep(r *ev.Run, prop string, maxRegions int, builds int) {
 									dataKey = reg.HandedCopies[n-1]
 								}
 							}
+							defer0(dataKey)
+							curDataKey = append([]byte(nil), dataKey...)
 							// who generated?
 							gen := ""
 							firstGen := ""
@@ -390,6 +424,9 @@ func unwrapAll(r *ev.Run, prop string, cloud *awskms.Cloud, regions []string, su
 				out, err := b.k.DecryptKey(context.Background(), append([]byte(nil), env...))
 				r.Eval(1)
 				r.Count("unwraps", 1)
+				if logScan != nil {
+					logScan(fmt.Sprintf("v%d unwrap", uv), sk, curDataKey)
+				}
 				r.Count(fmt.Sprintf("unwraps_v%d_to_v%d", wv, uv), 1)
 				desc := fmt.Sprintf("%s | v%d unwrap configured=%v preferred=%s failDecrypt=%v wrongDataKey=%v", wdesc, uv, conf, upref, failDec, wrongPt)
 				can := false
